@@ -142,7 +142,7 @@ func (t *trieM) GC(g uint32) {
 	t.gc.GC(g, t.ps)
 }
 
-func (t *trieM) GCLow(g uint32) { t.gc.GC(g, t.ps) }
+func (t *trieM) GCLow(g uint32)     { t.gc.GC(g, t.ps) }
 func (t *trieM) Upper() (view, int) { return readUpper(t.ms) }
 
 // Reset: either collapse the whole trie to its root hash or reopen it from the root hash.
@@ -178,19 +178,20 @@ func (t *trieM) Find(root util.Uint256, prefix []byte) ([]storage.KeyValue, erro
 // ---- stateroot.Module -----------------------------------------------------------------------
 
 type modM struct {
-	m        string
-	ps       storage.Store
-	copies   bool // the persistent layer hands out copies (no slice aliasing with what was put)
-	leak     string
-	tick     bool   // a persist tick of the node falls between AddMPTBatch and the (missing) commit of a dropped block
-	tickObs  string // what that persist found waiting in the MemCachedStore ("" = no tick happened)
-	leakDisk string // the persistent layer after that tick against everything committed before the block
-	cleanup  func()
-	ms       *storage.MemCachedStore
-	mod      *stateroot.Module
-	height   uint32
-	any      bool
-	inMemory bool // no restart since the start of the case: every node of the live trie is a Go object
+	m                          string
+	ps                         storage.Store
+	copies                     bool // the persistent layer hands out copies (no slice aliasing with what was put)
+	leak                       string
+	leakSuffix, leakDiskSuffix bool   // the only differences are rewritten 5-byte suffixes (flag + counter) of existing records
+	tick                       bool   // a persist tick of the node falls between AddMPTBatch and the (missing) commit of a dropped block
+	tickObs                    string // what that persist found waiting in the MemCachedStore ("" = no tick happened)
+	leakDisk                   string // the persistent layer after that tick against everything committed before the block
+	cleanup                    func()
+	ms                         *storage.MemCachedStore
+	mod                        *stateroot.Module
+	height                     uint32
+	any                        bool
+	inMemory                   bool // no restart since the start of the case: every node of the live trie is a Go object
 }
 
 func newModM(m string) *modM { return newModMOn(m, "mem") }
@@ -262,7 +263,7 @@ func (x *modM) Block(idx uint32, ops []subop, commit bool) (root util.Uint256, o
 	tr, sr, err := x.mod.AddMPTBatch(idx, toBatch(ops[0].batch), cache)
 	// AddMPTBatch must write into the block's cache only: the module's own store is untouched
 	// until the block is committed
-	x.leak = diffRaw(before, readRaw(x.ms), x.copies)
+	x.leak = diffRaw(before, readRaw(x.ms), true)
 	if err != nil {
 		return root, "err"
 	}
@@ -275,7 +276,7 @@ func (x *modM) Block(idx uint32, ops []subop, commit bool) (root util.Uint256, o
 			if _, err := x.ms.Persist(); err != nil {
 				panic(err)
 			}
-			x.leakDisk = diffRaw(before, readRawStore(x.ps), x.copies)
+			x.leakDisk = diffRaw(before, readRawStore(x.ps), true)
 		}
 		return sr.Root, ""
 	}
@@ -293,7 +294,7 @@ func (x *modM) GC(g uint32) {
 	x.mod.GC(g, x.ps)
 }
 
-func (x *modM) GCLow(g uint32) { x.mod.GC(g, x.ps) }
+func (x *modM) GCLow(g uint32)     { x.mod.GC(g, x.ps) }
 func (x *modM) Upper() (view, int) { return readUpper(x.ms) }
 
 // Reset = node restart: a new module over the same store, initialised at the current height.
